@@ -13,7 +13,7 @@ RULE = ("Hypothesis-generated fine flow grids 1x1..12x12 (cell size in "
         "{.25,.5,1,2}, origin on the quarter-cell lattice) with catchment "
         "cell sets that are random subsets or areas delineated on acyclic "
         "grids (filled and unfilled); coarse grids with cell-size ratio in "
-        "{1,1.5,2,3,4}, 1..5 rows/cols and quarter-cell offsets so that fine "
+        "{0.5,1,1.5,2,3,4}, 1..5 rows/cols and quarter-cell offsets so that fine "
         "centres fall inside, on edges and outside coarse cells; 1..6 "
         "Voronoi points inside / outside / on cell centres / equidistant. "
         "Oracle (validity predicate, exact dyadic arithmetic): for each "
@@ -44,7 +44,10 @@ def cases(draw, tier):
                                              unique=True)))
     else:
         case["outlet"] = draw(st.integers(0, n - 1))
-    case["ratio"] = draw(st.sampled_from([1., 1.5, 2., 3., 4.]))
+        # an interior sink leaves a hole in the area (filled area larger)
+        case["hole"] = draw(st.integers(0, n - 1)) \
+            if draw(st.booleans()) else None
+    case["ratio"] = draw(st.sampled_from([1., 1., 1.5, 2., 3., 4., 0.5]))
     case["gshape"] = [draw(st.integers(1, 5)), draw(st.integers(1, 5))]
     # the coarse grid is placed relative to one catchment cell (anchor) so
     # that overlaps are the norm: offsets in quarter fine cells
@@ -62,14 +65,18 @@ def setup(case):
     xll, yll = case["ox"] * csz / 2, case["oy"] * csz / 2
     fd = Grid("fd", nc, nr, cellsize=csz, xllcorner=xll, yllcorner=yll,
               dtype=np.int64)
-    fd.data = G.fd_array(case)
+    fda = G.fd_array(case)
+    if case.get("hole") is not None:
+        fda.flat[case["hole"]] = 0
+        case = dict(case, fd=fda.ravel().tolist())
+    fd.data = fda
     ca = Catchment("c", fd)
     if case["src"] == "subset":
         cells = np.array(case["cells"], dtype=np.int64)
         ca._idxcells_area = cells
         ca._idxcells_area_filled = cells
     else:
-        down = G.down_model(G.fd_array(case))
+        down = G.down_model(fda)
         n = nr * nc
         sizes = [len(G.area_model(down, c, set())) for c in range(n)]
         outlet = case["outlet"] if sizes[case["outlet"]] > 1 \
@@ -221,6 +228,8 @@ def oracle(case):
         labels.append("voronoi:tie")
     if len(axy) > len(pts):
         labels.append("voronoi:more-cells-than-points")
+    if len(ca.idxcells_area_filled) > len(ca.idxcells_area):
+        labels.append("filled-area-larger")
     nt = nt or (tie and len(axy) > len(pts))
     return {"nt": bool(nt), "labels": sorted(set(labels))}
 
